@@ -17,7 +17,7 @@ RULE = ("split_sync: all 65536 int16 words (exhaustive) in natural, shuffled, co
         "step amplitudes and analog thresholding. Non-trivial: a train with >= 3 events on >= 2 lines; distinct = distinct "
         "(layout | file kind, line subset, slice, dtype) signature")
 ASSUMPTIONS = ["one digital sync word per sample (as in every fixture); 0/1 trains are given as signed or floating arrays"]
-REQUIRED = {"words_checked": 65536, "read_sync_checked": 10, "fronts_checked": 100, "fronts_2d_checked": 100, "analog_on_threshold": 20, "strided_sync_checked": 20, "nidq_partial_checked": 8, "analog_lines_checked": 4, "sync_routes_checked": 30, "lf_band_sync_files": 3, "headers_rewritten_in_place": 2, "sync_files_with_stale_header": 5, "analog_long_windows": 20}
+REQUIRED = {"growing_file_reopens": 10, "growing_file_events_after_first_look": 50, "words_checked": 65536, "read_sync_checked": 10, "fronts_checked": 100, "fronts_2d_checked": 100, "analog_on_threshold": 20, "strided_sync_checked": 20, "nidq_partial_checked": 8, "analog_lines_checked": 4, "sync_routes_checked": 30, "lf_band_sync_files": 3, "headers_rewritten_in_place": 2, "sync_files_with_stale_header": 5, "analog_long_windows": 20}
 CASE_TIMEOUT = 120.0
 EXHAUSTIVE = "split_sync over all 65536 words x 16 bits"
 
@@ -228,6 +228,41 @@ def run_case(case):
             sr.close()
             if sum(len(v[0]) >= 3 for v in ev.values()) >= 2:
                 nt = 1
+            if not use_c and claim is None and case["seed"] % 2 == 0:
+                # a recording followed while it is being written (round 21): the first 30-70 % of the file is on disk, the reader object looks at it,
+                # the writer appends the rest, the SAME object is closed and opened again: one sync row per sample of the file as it is NOW, and every
+                # event of the whole train is recovered - those written after the first look included
+                ns1 = int(ns * float(rng.uniform(0.3, 0.7)))
+                dg = scratch() / "growing"
+                dg.mkdir(exist_ok=True)
+                bg = dg / b.name
+                by = rec.raw.tobytes()
+                bg.write_bytes(by[: ns1 * rec.nc * 2])
+                online = case["seed"] % 4 == 0
+                mtext = rec.meta_text
+                if online:      # header of an acquisition in progress: no size, no duration yet
+                    mtext = "".join(ln + "\n" for ln in mtext.splitlines() if not ln.startswith(("fileTimeSecs", "fileSizeBytes", "fileSHA1")))
+                bg.with_suffix(".meta").write_text(mtext)
+                RG = spikeglx.OnlineReader if online else spikeglx.Reader
+                lab = f"{kind} {RG.__name__} on a growing file ({ns1} -> {ns} samples)"
+                sg = RG(bg, sort=bool(rng.integers(0, 2)))
+                s1 = sg.read_sync(slice(0, ns1))
+                res.check(s1.shape == (ns1, 16) and np.array_equal(s1, T[:ns1]), "read_sync:growing-file:first-look", f"{lab}: first look: {s1.shape}")
+                with open(bg, "ab") as fo:
+                    fo.write(by[ns1 * rec.nc * 2:])
+                sg.close()
+                sg.open()
+                for sl in (slice(None), slice(0, ns), slice(ns1 - 3, ns)):
+                    s2_ = sg.read_sync(sl)
+                    res.check(s2_.shape == T[sl].shape and np.array_equal(s2_, T[sl]), "read_sync:growing-file:reopened",
+                              f"{lab}: after close() / open(), read_sync({sl}) returns {s2_.shape}, the file holds {ns} samples", counter="growing_file_reopens")
+                fullg = sg.read_sync(slice(None))
+                if fullg.shape == (ns, 16):
+                    for ln in range(16):
+                        pos, pol = ev.get(ln, (np.array([], int), np.array([], int)))
+                        check_fronts_line(res, U, fullg[:, ln], pos, pol, f"{lab} line {ln}")
+                res.count("growing_file_events_after_first_look", int(sum(int(np.sum(np.asarray(v[0]) >= ns1)) for v in ev.values())))
+                sg.close()
         except Exception as e:
             res.exception("read_sync:exception", e, f"{kind} ns={ns}")
         res.sig = f"imec-{kind}-{nl}-{use_c}"
